@@ -20,7 +20,7 @@ def lowering(ctx):
     for inv in ("LowerOK", "WrongOK"):
         try:
             rc, out, err = ctx.run(["apalache-mc", "check", "--cinit=CInit", "--length=0", "--inv=" + inv, "--out-dir=" + os.path.join(wd, "out_" + inv), "Lowering.tla"],
-                                   cwd=wd, timeout=600)
+                                   cwd=wd, timeout=600, env={"TMPDIR": wd})    # (the launcher makes a SANY* directory under $TMPDIR and leaves it there)
         except Exception as e:  # noqa
             ctx.skip("apalache not usable: %s" % e)
             return
